@@ -271,13 +271,13 @@ class Run:
     """One execution.  `observe` selects the per-tick observers (all on by default)."""
 
     def __init__(self, method=None, totalizer=True, start=True, observe=("tags", "mstate", "runlog", "updates"),
-                 wall_offset=0.037):
+                 wall_offset=0.037, built_before_start: float = 0.0):
         install_determinism()
         _Det.counter = 0
         _Det.wall_offset = wall_offset
         self.tickno = -1
         self.now = T0
-        _Det.now = T0
+        _Det.now = T0 - built_before_start          # the UOD and the engine are constructed this long before the engine is started
         self.cmd_events: list = []
         self.observe = set(observe)
         self.uod, self.hw = make_uod(self, totalizer)
@@ -289,6 +289,7 @@ class Run:
         self.tick_exceptions: list = []
         self.runlog_errors: list = []
         self.increment = DT
+        _Det.now = T0
         self.engine.run(skip_timer_start=True)
         self._wl0 = 0
         self._ev0 = 0
